@@ -1,44 +1,62 @@
 #!/usr/bin/env python3
-"""Builds /verif/seeded/<id>/ (patch.diff, demo.rs, meta.json) from seeded-incoming/ plus result logs.
+"""Builds /verif/seeded/<id>/ (patch.diff, demo.rs, meta.json) and /verif/seeded/RESULTS.md from
+seeded-incoming/ (round 1) and seeded-incoming2/ (round 2) plus result logs of run_matrix.sh / selftest.sh.
 usage: organize_seeded.py <results-log> [<results-log> ...]   (later logs override earlier ones)"""
 import json, os, re, shutil, sys, glob, subprocess
-fired = {}
+def sid_of(path):
+    pid = os.path.basename(os.path.dirname(path)); n = re.sub(r'\D', '', os.path.basename(path))
+    return f"{pid}-r2-{n}" if 'seeded-incoming2' in path else f"{pid}-{n}"
+fired = {}; first = {}
 for log in sys.argv[1:]:
     cur = None
     for line in open(log, errors='replace'):
         m = re.match(r'=== (\S+)', line)
-        if m: cur = m.group(1); continue
+        if m: cur = sid_of(m.group(1)); first.setdefault(cur, {}); continue
+        m = re.match(r'(C\d+) FIRES \((\d+) witnesses\): (.*)', line)
+        if m and cur: first[cur][m.group(1)] = m.group(3).split(';')[0][:260]
         m = re.match(r'FIRED:(.*)', line)
-        if m and cur: fired[os.path.basename(os.path.dirname(cur)) + '-' + re.sub(r'\D', '', os.path.basename(cur))] = (m.group(1).split(), log)
+        if m and cur: fired[cur] = ([x for x in m.group(1).split() if x != 'none'], os.path.basename(log))
 confirm = {}
-for line in open('/verif/seeded-incoming/CONFIRM.log', errors='replace'):
-    m = re.match(r'(\S+/(C\d+)/patch(\d)\.diff) \| clean: (.*?) \| suite: (.*?) \| patched: (.*)', line)
-    if m: confirm[f'{m.group(2)}-{m.group(3)}'] = {'demo_on_unmodified_tree': m.group(4).strip(), 'pinned_suite_with_patch': m.group(5).strip(), 'demo_with_patch': m.group(6).strip()}
+for d in ('seeded-incoming', 'seeded-incoming2'):
+    p = f'/verif/{d}/CONFIRM.log'
+    if not os.path.exists(p): continue
+    for line in open(p, errors='replace'):
+        m = re.match(r'(\S+/C\d+/patch\d\.diff) \| clean: (.*?) \| suite: (.*?) \| patched: (.*)', line)
+        if m: confirm[sid_of(m.group(1))] = {'demo_on_unmodified_tree': m.group(2).strip(), 'pinned_suite_with_patch': m.group(3).strip(), 'demo_with_patch': m.group(4).strip()}
 head = subprocess.run(['git','-C','/repo','rev-parse','--short','HEAD'],capture_output=True,text=True).stdout.strip()
 os.makedirs('/verif/seeded', exist_ok=True)
-for d in sorted(glob.glob('/verif/seeded-incoming/C[0-9][0-9]')):
-    pid = os.path.basename(d)
-    for n in ('1','2'):
-        sid = f'{pid}-{n}'
-        out = f'/verif/seeded/{sid}'
-        os.makedirs(out, exist_ok=True)
-        shutil.copy(f'{d}/patch{n}.diff', f'{out}/patch.diff')
-        shutil.copy(f'{d}/demo{n}.rs', f'{out}/demo.rs')
-        orig = f'{d}/orig-808db6c-patch{n}.diff'
-        if os.path.exists(orig): shutil.copy(orig, f'{out}/patch-as-delivered-against-808db6c.diff')
-        meta = json.load(open(f'{d}/meta{n}.json'))
-        f = fired.get(sid, ([], None))
-        meta_out = {
-            'id': sid,
-            'property': pid,
-            'summary': meta.get('summary'),
-            'needs_to_manifest': meta.get('needs'),
-            'origin': 'independent sub-agent given only the property text and a scratch worktree (nothing from /verif)',
-            'sub_agent_ran': meta.get('ran'),
-            'ported': os.path.exists(orig) and 'delivered against 808db6c; re-expressed on the current HEAD after the fix 289077f restructured Writer (same slip, same demo)' or None,
-            'confirmed_by_me': dict(confirm.get(sid, {}), how='confirm_seeded.sh in a scratch worktree: demo dropped into tests/, run on the unmodified tree and with the patch; `cargo test --workspace --no-fail-fast --offline --lib` with the patch'),
-            'checks_that_fire': {'tier': 'quick', 'properties': f[0], 'how': 'try_patch.sh: git -C /repo apply, ./check <ID> quick for all 20 properties, git -C /repo checkout -- .', 'repo_head': head},
-            'caught_by_target_property': pid in f[0],
-        }
-        json.dump(meta_out, open(f'{out}/meta.json','w'), indent=1)
-print('organized', len(glob.glob('/verif/seeded/*')), 'seeded changes')
+rows = []
+for rnd, d0 in ((1, 'seeded-incoming'), (2, 'seeded-incoming2')):
+    for d in sorted(glob.glob(f'/verif/{d0}/C[0-9][0-9]')):
+        pid = os.path.basename(d)
+        for n in ('1', '2'):
+            src = f'{d}/patch{n}.diff'
+            if not os.path.exists(src): continue
+            sid = sid_of(src)
+            out = f'/verif/seeded/{sid}'
+            os.makedirs(out, exist_ok=True)
+            shutil.copy(src, f'{out}/patch.diff'); shutil.copy(f'{d}/demo{n}.rs', f'{out}/demo.rs')
+            orig = f'{d}/orig-808db6c-patch{n}.diff'
+            if os.path.exists(orig): shutil.copy(orig, f'{out}/patch-as-delivered-against-808db6c.diff')
+            meta = json.load(open(f'{d}/meta{n}.json'))
+            f = fired.get(sid, ([], None))
+            json.dump({
+                'id': sid, 'property': pid, 'round': rnd,
+                'summary': meta.get('summary'), 'needs_to_manifest': meta.get('needs'),
+                'origin': 'independent sub-agent given only the property text and a scratch worktree (nothing from /verif)' + (' ; round 2: asked for hard-to-find changes (conjunctions, interior values, call histories, leaked state)' if rnd == 2 else ''),
+                'sub_agent_ran': meta.get('ran'),
+                'ported': (os.path.exists(orig) and 'delivered against 808db6c; re-expressed on the current HEAD after the fix 289077f restructured Writer (same slip, same demo)') or None,
+                'confirmed_by_me': dict(confirm.get(sid, {}), how='confirm_seeded.sh in a scratch worktree: demo dropped into tests/, run on the unmodified tree and with the patch; `cargo test --workspace --no-fail-fast --offline --lib` with the patch'),
+                'checks_that_fire': {'tier': 'quick', 'properties': f[0], 'first_witness': first.get(sid, {}), 'checks_run': 'the target property and every check that fired in earlier runs' , 'how': 'try_patch.sh: git -C /repo apply, ./check <ID> quick, git -C /repo checkout -- .', 'repo_head': head, 'log': f[1]},
+                'caught_by_target_property': pid in f[0],
+            }, open(f'{out}/meta.json', 'w'), indent=1)
+            rows.append((sid, pid, rnd, (meta.get('summary') or '')[:150].replace('|', '/'), f[0], (meta.get('needs') or '')[:160].replace('|', '/')))
+with open('/verif/seeded/RESULTS.md', 'w') as o:
+    o.write('# Seeded changes from independent sub-agents: which quick checks fire\n\n')
+    o.write(f'Produced by `run_matrix.sh` against /repo at {head} (each change applied with `git -C /repo apply`, pinned suite re-run, checks run, tree restored). For each change the check of its own property and every check that fired in an earlier run were run.\n\n')
+    o.write('| id | round | what was changed | needs | checks that fire | caught by own property |\n|---|---|---|---|---|---|\n')
+    for sid, pid, rnd, summ, f, needs in rows:
+        o.write(f"| {sid} | {rnd} | {summ} | {needs} | {' '.join(f) or 'none'} | {'yes' if pid in f else '**no**'} |\n")
+    tot = len(rows); det = sum(1 for r in rows if r[4]); own = sum(1 for r in rows if r[1] in r[4])
+    o.write(f'\n{tot} changes, {det} detected by at least one check, {own} by the check of the property they were written against.\n')
+print('organized', len(rows), 'seeded changes')
